@@ -22,11 +22,11 @@ PLAN = {
     "nurikabe": {"quick": [(1, 1, 0), (1, 3, 0), (3, 1, 0), (2, 3, 100), (3, 3, 80)], "thorough": [(1, 1, 0), (1, 3, 0), (3, 1, 0), (2, 2, 0), (2, 3, 6000), (3, 2, 3000), (3, 3, 3000)]},
     "norinori": {"quick": [(1, 3, 0), (2, 2, 0), (2, 3, 0), (3, 3, 120)], "thorough": [(1, 3, 0), (3, 1, 0), (2, 2, 0), (2, 3, 0), (3, 2, 0), (3, 3, 0), (2, 4, 0)]},
     "akari": {"quick": [(1, 3, 0), (3, 1, 0), (2, 3, 120), (3, 3, 80)], "thorough": [(1, 1, 0), (1, 3, 0), (3, 1, 0), (2, 2, 0), (2, 3, 6000), (3, 2, 3000), (3, 3, 3000)]},
-    "starbattle": {"quick": [(1, 1, 0), (2, 2, 0), (3, 3, 0)], "thorough": [(1, 1, 0), (2, 2, 0), (3, 3, 0), (4, 4, 600)]},
+    "starbattle": {"quick": [(1, 1, 0), (2, 2, 0), (3, 3, 0)], "thorough": [(1, 1, 0), (2, 2, 0), (3, 3, 0)]},
     "yinyang": {"quick": [(1, 3, 0), (3, 1, 0), (2, 3, 120), (3, 3, 80)], "thorough": [(1, 1, 0), (1, 3, 0), (3, 1, 0), (2, 2, 0), (2, 3, 0), (3, 2, 0), (3, 3, 4000), (3, 4, 1000)]},
     "creek": {"quick": [(1, 1, 0), (1, 2, 120), (2, 2, 100), (2, 3, 60)], "thorough": [(1, 1, 0), (1, 2, 6000), (2, 1, 3000), (2, 2, 4000), (2, 3, 2000), (3, 3, 1000)]},
     "heyawake": {"quick": [(1, 3, 0), (3, 1, 0), (2, 3, 0), (3, 3, 150)], "thorough": [(1, 3, 0), (3, 1, 0), (2, 2, 0), (2, 3, 0), (3, 2, 0), (3, 3, 0), (1, 5, 0)]},
-    "lits": {"quick": [(2, 3, 0), (3, 3, 0), (2, 4, 150)], "thorough": [(2, 3, 0), (3, 2, 0), (3, 3, 0), (2, 4, 0), (3, 4, 800)]},
+    "lits": {"quick": [(2, 3, 0), (3, 3, 0), (2, 4, 150)], "thorough": [(2, 3, 0), (3, 2, 0), (3, 3, 0), (2, 4, 0), (4, 2, 0), (2, 5, 2000)]},
     "nurimisaki": {"quick": [(1, 3, 0), (3, 1, 0), (2, 3, 120), (3, 3, 80)], "thorough": [(1, 3, 0), (3, 1, 0), (2, 2, 0), (2, 3, 0), (3, 2, 0), (3, 3, 4000), (3, 4, 1000)]},
     "putteria": {"quick": [(1, 3, 0), (2, 2, 0), (2, 3, 0), (3, 3, 150)], "thorough": [(1, 3, 0), (3, 1, 0), (2, 2, 0), (2, 3, 0), (3, 2, 0), (3, 3, 0)]},
     "aquarium": {"quick": [(1, 3, 0), (3, 1, 0), (2, 3, 200), (3, 2, 100), (3, 3, 100)], "thorough": [(1, 3, 0), (3, 1, 0), (2, 2, 0), (2, 3, 0), (3, 2, 0), (3, 3, 3000)]},
@@ -57,13 +57,14 @@ def run(tier, seed):
 
     def one(job):
         pz, h, w, cnt, holes = job
-        return job, run_tlc("MC_Puzzle", "MC_Puzzle", workdir=chk.dir, timeout=6000, workers=1, heap="3g",
+        return job, run_tlc("MC_Puzzle", "MC_Puzzle", workdir=chk.dir, timeout=2400, workers=1, heap="3g",
                             env={"PUZZLE": pz, "BH": h, "BW": w, "COUNT": cnt, "SEED": seed % 1000, "HOLEMASK": holes})
     with ThreadPoolExecutor(max_workers=12) as ex:
         for (pz, h, w, cnt, holes), res in ex.map(one, todo):
             chk.add_tlc(res)
             cases += res.records
             covered.setdefault(pz, []).append(f"{h}x{w}:{len(res.records)}")
+            chk.extra.setdefault("tlc_wall_s_per_board", {})[f"{pz} {h}x{w}"] = round(res.wall_s)
     with RobustPool(NPROC) as pool:
         outs = pool.map(PA.work, chunks(cases, NPROC * 6))
     got = [x for o in outs for x in o]
